@@ -101,6 +101,52 @@ def m_ok_or_else(ex, callee, args, ret_ty, frame):
     return VAdt(rt, 1, {1: [e]}, ex.new_vid())
 
 
+def m_fn_call(ex, callee, args, ret_ty, frame):
+    """<F as Fn/FnMut/FnOnce<(A, B)>>::call*(f, (a, b)) for a closure value whose MIR is in the dump"""
+    clo = args[0]
+    tup = args[1]
+    r = ex.call_closure(clo, list(tup.items) if isinstance(tup, VTuple) else [tup])
+    if r is None:
+        return NOT_HANDLED
+    return r
+
+
+def m_int_try_into(ex, callee, args, ret_ty, frame):
+    m = re.match(r"^<(\w+) as (?:TryInto<(\w+)>|TryFrom<(\w+)>)>::(try_into|try_from)$", callee)
+    if not m or not isinstance(args[0], VInt):
+        return NOT_HANDLED
+    from engine import INT_TYPES
+    if m.group(4) == "try_into":
+        src, dst = m.group(1), m.group(2)
+    else:
+        src, dst = m.group(3), m.group(1)
+    if src not in INT_TYPES or dst not in INT_TYPES:
+        return NOT_HANDLED
+    (sb, ss), (db, ds) = INT_TYPES[src], INT_TYPES[dst]
+    x = args[0].bv
+    W = max(sb, db) + 1
+    wide = z3.SignExt(W - sb, x) if ss else z3.ZeroExt(W - sb, x)
+    lo = -(1 << (db - 1)) if ds else 0
+    hi = (1 << (db - 1)) - 1 if ds else (1 << db) - 1
+    fits = z3.And(wide >= lo, wide <= hi)
+    rt = norm_ty(ret_ty) if ret_ty else "Result"
+    if ex.branch_bool(fits, "int.try_into.fits"):
+        v = z3.Extract(db - 1, 0, wide)
+        return mk_result(ex, rt, ok=VInt(v, ds))
+    return mk_result(ex, rt, err=VOpaque("TryFromIntError", ex.new_vid()))
+
+
+def m_unwrap(ex, callee, args, ret_ty, frame):
+    v = args[0]
+    if not isinstance(v, VAdt):
+        return NOT_HANDLED
+    i = adt_variant(ex, v, "unwrap")
+    good = 1 if v.base() == "Option" else 0
+    if i == good:
+        return ex.adt_fields(v, i)[0]
+    raise PathEnd("panic", "unwrap/expect on None/Err")
+
+
 def m_checked_arith(ex, callee, args, ret_ty, frame):
     m = re.match(r"^(?:<impl )?(i8|i16|i32|i64|isize|u8|u16|u32|u64|usize)>?::checked_(add|sub)$", callee)
     if not m or not all(isinstance(a, VInt) for a in args):
@@ -444,6 +490,9 @@ BUILTIN = [
     (r"^Option(::)?(<.*>)?::unwrap_or_else", m_option_unwrap_or_else),
     (r"^Option(::)?(<.*>)?::ok_or_else", m_ok_or_else),
     (r"::checked_(add|sub)$", m_checked_arith),
+    (r"^<.+ as Fn(Once|Mut)?<.*>>::call(_once|_mut)?$", m_fn_call),
+    (r"^<\w+ as (TryInto|TryFrom)<\w+>>::(try_into|try_from)$", m_int_try_into),
+    (r"^(Result|Option)(::)?(<.*>)?::(unwrap|expect)$", m_unwrap),
     (r"^Option(::)?(<.*>)?::(is_some|is_none)$", m_option_is_some),
     (r"^Option(::)?(<.*>)?::cloned$", m_option_cloned),
     (r"^Result(::)?(<.*>)?::map::", m_result_map_into),
